@@ -12,6 +12,7 @@ import (
 	"golang.org/x/tools/go/ssa"
 
 	"verif/internal/flow"
+	"verif/internal/prog"
 )
 
 func init() {
@@ -1739,6 +1740,10 @@ func (x *c03) recursion() {
 		}
 		key := "cycle{" + strings.Join(names, ",") + "}"
 		if inDecode {
+			if how := x.mapChainBounded(comp); how != "" {
+				r.Ok("O4", key, c.fpos(comp[0]), how)
+				continue
+			}
 			how, why := x.depthBounded(comp, set)
 			if how != "" {
 				r.Ok("O4", key, c.fpos(comp[0]), how)
@@ -2149,4 +2154,99 @@ func callDerivesFromChild(call *ssa.Call, idx, d int) bool {
 		}
 	}
 	return n > 0
+}
+
+// mapChainBounded: a self-recursive function that walks a chain through a package-level constant map: in every
+// recursive call one parameter receives the value looked up for that same parameter in the map (or a constant),
+// all others are passed unchanged, and the map's literal is acyclic — the recursion depth is at most the
+// longest chain in the map plus one.
+func (x *c03) mapChainBounded(comp []*ssa.Function) string {
+	if len(comp) != 1 {
+		return ""
+	}
+	f := comp[0]
+	var gmap *ssa.Global
+	nRec := 0
+	for _, ci := range flow.CallInstrs(f) {
+		if flow.StaticCallee(ci) != f {
+			continue
+		}
+		nRec++
+		args := ci.Common().Args
+		varying := 0
+		for i, a := range args {
+			if i < len(f.Params) && flow.Peel(a) == ssa.Value(f.Params[i]) {
+				continue
+			}
+			if spilledParam(a) != nil && i < len(f.Params) && spilledParam(a) == f.Params[i] {
+				continue
+			}
+			varying++
+			if _, isK := a.(*ssa.Const); isK {
+				// a constant: the call must be unreachable when the parameter already has that value
+				guarded := false
+				for _, g := range flow.Guards(ci) {
+					if rl, ok := condRel(g.If.Cond, g.Taken); ok && rl.op == token.NEQ && i < len(f.Params) && flow.Peel(rl.a) == ssa.Value(f.Params[i]) && sameVal(rl.b, a) {
+						guarded = true
+					}
+				}
+				if !guarded {
+					return ""
+				}
+				continue
+			}
+			ex, ok := flow.Peel(a).(*ssa.Extract)
+			if !ok || ex.Index != 0 {
+				return ""
+			}
+			lk, ok := ex.Tuple.(*ssa.Lookup)
+			if !ok || i >= len(f.Params) || flow.Peel(lk.Index) != ssa.Value(f.Params[i]) {
+				return ""
+			}
+			gl := loadedGlobal(lk.X)
+			if gl == nil || (gmap != nil && gmap != gl) {
+				return ""
+			}
+			gmap = gl
+		}
+		if varying != 1 {
+			return ""
+		}
+	}
+	if nRec == 0 || gmap == nil {
+		return ""
+	}
+	rel := strings.TrimPrefix(gmap.Pkg.Pkg.Path(), prog.ModPath+"/")
+	ents, ok := x.c.globalMapLiteral(rel, gmap.Name())
+	if !ok {
+		return ""
+	}
+	m := map[int64]int64{}
+	for _, e := range ents {
+		k, _ := constant.Int64Val(e.Key)
+		v, okv := flow.ConstInt(e.Value)
+		if !okv {
+			return ""
+		}
+		m[k] = v
+	}
+	longest := 0
+	for k := range m {
+		xk, n := k, 0
+		for {
+			nx, ok := m[xk]
+			if !ok {
+				break
+			}
+			xk = nx
+			n++
+			if n > len(m) {
+				return "" // cycle
+			}
+		}
+		if n > longest {
+			longest = n
+		}
+	}
+	return fmt.Sprintf("chain recursion over the constant map %s (acyclic, longest chain %d): depth ≤ %d regardless of the input", gmap.Name(), longest, longest+2)
 }
